@@ -169,6 +169,27 @@ fn diff_fields(a: &[String], b: &[String]) -> String {
     KEYS.iter().enumerate().filter(|(i, _)| a[*i] != b[*i]).map(|(_, k)| *k).collect::<Vec<_>>().join("+")
 }
 
+/// coarse features of an input / a setter value, to split divergence classes
+fn features(s: &str, detail: bool) -> String {
+    let t: Vec<char> = s.trim_matches(|c: char| c <= ' ').chars().collect();
+    let mut f: Vec<&str> = vec![];
+    let is_end = |c: char| matches!(c, '/' | '\\' | '?' | '#');
+    let drive = (0..t.len()).any(|i| {
+        t[i].is_ascii_alphabetic()
+            && i + 1 < t.len()
+            && (t[i + 1] == ':' || t[i + 1] == '|')
+            && (i == 0 || is_end(t[i - 1]))
+            && (i + 2 == t.len() || is_end(t[i + 2]))
+    });
+    if drive { f.push("drive"); }
+    if t.iter().any(|c| matches!(c, '\t' | '\n' | '\r')) { f.push("tnl"); }
+    if detail {
+        if t.contains(&'\\') { f.push("bslash"); }
+        if t.contains(&'@') { f.push("at"); }
+    }
+    f.join(",")
+}
+
 struct Diff {
     classes: BTreeMap<String, (u64, String)>,
     total: u64,
@@ -266,21 +287,21 @@ fn run_diff(args: &Args) -> Report {
             (_, Err(_)) => ("".into(), "panic".into(), Some(format!("impl-panic:{}", bcls))),
             (Err(_), Ok(Err(_))) => ("fail".into(), "fail".into(), None),
             (Err(_), Ok(Ok(u))) => {
-                ("fail".into(), impl_api(u)[0].clone(), Some(format!("spec-fails/impl-ok:{}:{}", scheme_class(u.scheme()), bcls)))
+                ("fail".into(), impl_api(u)[0].clone(), Some(format!("spec-fails/impl-ok:{}", scheme_class(u.scheme()))))
             }
-            (Ok(v), Ok(Err(e))) => (v[0].clone(), format!("err {:?}", e), Some(format!("spec-ok/impl-fails({:?}):{}:{}", e, scheme_class(&v[1]), bcls))),
+            (Ok(v), Ok(Err(e))) => (v[0].clone(), format!("err {:?}", e), Some(format!("spec-ok/impl-fails({:?}):{}", e, scheme_class(&v[1])))),
             (Ok(v), Ok(Ok(u))) => {
                 let iv = impl_api(u);
                 if *v == iv {
                     (v[0].clone(), iv[0].clone(), None)
                 } else {
-                    (v.join(" | "), iv.join(" | "), Some(format!("differ[{}]:{}:{}", diff_fields(v, &iv), scheme_class(&v[1]), bcls)))
+                    (v.join(" | "), iv.join(" | "), Some(format!("differ[{}]:{}", diff_fields(v, &iv), scheme_class(&v[1]))))
                 }
             }
         };
         rep.case("diff-parse", &wit, &m, &im, true, class.as_deref().unwrap_or("agree"));
         if let Some(c) = class {
-            d.record(format!("parse {}", c), format!("{}  spec=<{}> impl=<{}>", wit, m, im));
+            d.record(format!("parse {} [{}]", c, features(&s, c.starts_with("spec-fails"))), format!("{}  spec=<{}> impl=<{}>", wit, m, im));
         }
     }
 
@@ -334,7 +355,7 @@ fn run_diff(args: &Args) -> Report {
         };
         rep.case("diff-set", &wit, &m, &im, true, class.as_deref().unwrap_or("agree"));
         if let Some(c) = class {
-            d.record(format!("set {}", c), format!("{}  spec=<{}> impl=<{}>", wit, m, im));
+            d.record(format!("set {} [{}]", c, features(&val, false)), format!("{}  spec=<{}> impl=<{}>", wit, m, im));
         }
     }
 
